@@ -542,6 +542,8 @@ type UnionSDF2 struct {
 	sdf []SDF2
 	min MinFunc
 	bb  Box2
+	// blended is true once a blend function is installed: operands cannot be pruned
+	blended bool
 }
 
 // Union2D returns the union of multiple SDF2 objects.
@@ -576,6 +578,11 @@ func Union2D(sdf ...SDF2) SDF2 {
 
 // Evaluate returns the minimum distance to the SDF2 union.
 func (s *UnionSDF2) Evaluate(p v2.Vec) float64 {
+
+	if s.blended {
+		// a blend function can pull in operands whose bounding box is further away
+		return s.EvaluateSlow(p)
+	}
 
 	// work out the min/max distance for every bounding box
 	vs := make([]Interval, len(s.sdf))
@@ -625,6 +632,7 @@ func (s *UnionSDF2) EvaluateSlow(p v2.Vec) float64 {
 // SetMin sets the minimum function to control SDF2 blending.
 func (s *UnionSDF2) SetMin(min MinFunc) {
 	s.min = min
+	s.blended = true
 }
 
 // BoundingBox returns the bounding box of an SDF2 union.
